@@ -207,6 +207,11 @@ fn check_base(host: &Host, end: &RunEnd, cx: &Ctx) -> Vec<Finding> {
             Some((prop, sig)) => out.push(f(prop, sig, what)),
             None => out.push(f(owner, format!("panic:{}:{}", base, normalize(&p.msg)), what)),
         }
+        // the wake-up stream ledger is a safety property of the log prefix:
+        // judge what happened before the panic as well
+        if cx.props.contains(&"C23") {
+            crate::monitors2::c23(host, end, &mut out);
+        }
         return out;
     }
     if let Some((kind, what)) = &host.trap {
